@@ -157,6 +157,23 @@ where
     }
 }
 
+impl<S, K: Clone> Drop for FairQueue<S, K> {
+    fn drop(&mut self) {
+        // The wakers handed to the streams hold a reference to `inner`, and a stream that
+        // is waiting for data keeps its waker registered with the reactor: `inner` (and with
+        // it every stream, i.e. the receiving half of every connection) would stay alive
+        // for as long as the peers keep their connections open. Let go of the streams when
+        // the queue's owner goes away.
+        let streams = {
+            let mut inner = self.inner.lock();
+            inner.ready_queue.clear();
+            inner.waker = None;
+            std::mem::take(&mut inner.streams)
+        };
+        drop(streams);
+    }
+}
+
 impl<S, K: Clone> FairQueue<S, K> {
     pub fn new(block_on_no_clients: bool) -> Self {
         Self {
